@@ -247,6 +247,14 @@ def scenarios_c13(r, tier):
     out.append({'paths': ['private.py', 'exporter.py'], 'files': dict(multi), 'flags': ['--in-place', '--rename-globals'], 'pg': ['main']})
     out.append({'paths': ['generic.py', 'locals.py'], 'files': dict(multi), 'flags': ['--in-place']})
     out.append({'paths': ['exporter.py', 'private.py', 'generic.py', 'locals.py'], 'files': dict(multi), 'flags': ['--in-place', '--rename-globals'], 'pl': ['factor']})
+    grow = {'a_grows.py': b'True if 0in x else False', 'b_shrinks.py': WITNESS, 'c_grows.py': b'x=1e-5', 'd_shrinks.py': multi['private.py'], 'sub/e_same.py': b'a=1'}
+    out.append({'paths': ['a_grows.py', 'b_shrinks.py', 'c_grows.py', 'd_shrinks.py'], 'files': dict(grow), 'flags': ['--in-place']})
+    out.append({'paths': ['d_shrinks.py', 'c_grows.py', 'b_shrinks.py', 'a_grows.py'], 'files': dict(grow), 'flags': ['--in-place']})
+    out.append({'paths': ['srcdir'], 'files': {'srcdir/' + k: v for k, v in grow.items()}, 'flags': ['--in-place']})
+    hoisty = b"def greet(name):\n    return 'hello world', 'hello world', 'hello world', name\nprint(greet('hello world'), 'another text', 'another text', 'another text')\n"
+    for pg in (['_A'], ['_A', '_B'], ['A'], ['_A,_B']):
+        out.append(mk_route('file', hoisty, [], None, pg))
+        out.append(mk_route('stdin', hoisty, ['--no-rename-locals'], ['_A'], pg))
     # the size rule is part of what the tool writes: sources at the boundary (same number of characters, more UTF-8 bytes; legacy encodings)
     for k, b in enumerate(BOUNDARY):
         out.append(mk_route(['file', 'stdin', 'file-output', 'inplace', 'stdin-output'][k % 5], b.encode('utf-8'), []))
@@ -346,6 +354,11 @@ def scenarios_c15(r, tier):
     out.append({'paths': ['x.py'], 'files': tree, 'flags': [], 'output': 'o.py'})
     out.append({'paths': ['x.py'], 'files': tree, 'flags': []})
     out.append({'paths': ['nonexistent.py'], 'files': tree, 'flags': ['--in-place'], 'fail': 'unreadable'})
+    globby = {'mod[1].py': good[0], 'mod1.py': good[1], 'pkg[ab]/x.py': good[0], 'pkga/x.py': good[1], 'pkgb/y.py': good[2], 'star*.py': good[0], 'starry.py': good[1], 'q?.py': good[0], 'qq.py': good[1]}
+    out.append({'paths': ['mod[1].py'], 'files': dict(globby), 'flags': ['--in-place']})
+    out.append({'paths': ['pkg[ab]'], 'files': dict(globby), 'flags': ['--in-place']})
+    out.append({'paths': ['star*.py', 'q?.py'], 'files': dict(globby), 'flags': ['--in-place']})
+    out.append({'paths': ['mod[1].py'], 'files': dict(globby), 'flags': [], 'output': 'o.py'})
     # --output that IS the source (same path, through a symlink), and a failing source next to an --output file
     out.append({'paths': ['x.py'], 'files': tree, 'flags': [], 'output': 'x.py'})
     out.append({'paths': ['p/a.py'], 'files': dict(tree, **{'alias.py': ('link', 'p/a.py')}), 'flags': [], 'output': 'alias.py'})
